@@ -125,9 +125,29 @@ func ruleStalenessAtoms(c *Ctx) {
 	gConf := guardRel("conf version >= cached conf version", ">=", on(getConf, epochOf(isRegion)), on(getConf, epochOf(isOrigin)))
 	gT0 := guardRel("term not reported (<= 0)", "<=", on(getTerm, isRegion), isConstInt(0))
 	gT1 := guardRel("term >= cached term", ">=", on(getTerm, isRegion), on(getTerm, isOrigin))
+	// the overlapped regions were walked (their versions compared) whatever the same-id answer is: a loop over, or a
+	// helper given, the second result of getRelevantRegions
+	isOverlaps := func(v ssa.Value) bool {
+		return derivesFrom(v, func(w ssa.Value) bool {
+			ex, ok := w.(*ssa.Extract)
+			return ok && ex.Index == 1 && valueIsCallTo(ex.Tuple, getRel)
+		}, 3)
+	}
+	walked := &calledEv{name: "the overlapped regions were walked", match: func(x ssa.Instruction) bool {
+		ci, ok := x.(*ssa.Call)
+		if !ok {
+			return false
+		}
+		for _, a := range ci.Call.Args {
+			if isOverlaps(a) {
+				return true
+			}
+		}
+		return false
+	}}
 	c.need(rule, preF, "acceptance (nil error)", func(x ssa.Instruction) bool { r, ok := x.(*ssa.Return); return ok && retIsNilErr(r) },
-		[]Ev{gNil, gVer, gConf, gT0, gT1}, func(h []bool) bool { return h[0] || (h[1] && h[2] && (h[3] || h[4])) },
-		"a region is accepted only if no region of its id is cached, or its version and conf version are not behind the cached ones and its raft term is unreported or not behind")
+		[]Ev{gNil, gVer, gConf, gT0, gT1, walked}, func(h []bool) bool { return h[5] && (h[0] || (h[1] && h[2] && (h[3] || h[4]))) },
+		"a region is accepted only after its version was compared with every overlapped cached region, and if no region of its id is cached, or its version and conf version are not behind the cached ones and its raft term is unreported or not behind")
 	// the overlap test runs for every overlap: inside a loop over the overlaps returned by getRelevantRegions
 	n := 0
 	for _, b := range preF.Blocks {
